@@ -13,6 +13,7 @@ import NurbsVerif.Lemmas.KnotRangeFoldDecomp
 import NurbsVerif.Lemmas.KnotRangeFoldDecompE
 import NurbsVerif.Lemmas.DecompE
 import NurbsVerif.Lemmas.KnotRangeFoldWitness
+import NurbsVerif.Lemmas.SpanBinEval
 
 /-!
 # C17  Results do not depend on configuration choices
@@ -36,7 +37,10 @@ import NurbsVerif.Lemmas.KnotRangeFoldWitness
   return the mapped result; `decomposeDirE` / `decomposeUVE` (decomposition with the exceptions of the code, what the
   driver runs) answer the same: both raise or both return identical pieces (as soon as there is an interior knot);
 * the binary span search returns (never runs out of fuel) on the whole domain, for tolerances `0 < tol < 1/2` (the
-  range on which the model's start index is the code's `int(round((low+high)/2 + tol))`).
+  range on which the model's start index is the code's `int(round((low+high)/2 + tol))`);
+* evaluation with the binary search SELECTED (`find_span_func=find_span_binsearch`): point evaluation of curves,
+  surfaces, volumes and the curve derivatives on the span it returns are the Cox–de Boor sums / true derivatives on the
+  whole closed domain (`*_binsearch_selected`), under `BinTolOk` (tolerance in `(0, 1/2)`, F-17b hypothesis).
 
 `scaleJet c L` is the list `L` with entry `k` multiplied coordinatewise by `cᵏ`; `scaleJet2 cu cv T` the table `T`
 with entry `[k][l]` multiplied by `cuᵏ·cvˡ`; `Shape.affineKv S dir a b` the shape `S` with the knot vector of
@@ -819,5 +823,150 @@ example : (findSpanBin 2 (fnOf cfgKv) 7 (3/2) (1/100)).isSome = true :=
     (by norm_num) (by norm_num)
 
 end witness
+
+/-! ### evaluation with `find_span_binsearch` selected (the C01 statements for the other search function)
+
+The evaluators call `self._span_func(degree, knotvector, size, u)` and run the span-level routine on the index returned;
+with `find_span_func=helpers.find_span_binsearch` that is `findSpanBin` with the shipped tolerance.  `BinTolOk U n u tol`
+(`Lemmas/SpanBinEval.lean`) collects the tolerance hypotheses of `span_search_choice`: `0 < tol`, `2·tol < 1`, and
+`|U_n − u| ≤ tol → U_{n-1} ≤ u` (the shortcut at the domain end only fires for parameters of the last span – what recorded
+finding F-17b violates).  `KnotsOk p U n`: non-decreasing, `p + 1 ≤ n`, non-empty last span `U_{n-1} < U_n`. -/
+
+/-- `BinTolOk` holds for EVERY parameter of the domain when the last span is longer than the tolerance
+    (`tol < U_n − U_{n-1}`), and for every parameter that is the domain end itself or further than `tol` from it. -/
+theorem binsearch_tolerance_admissible (U : ℕ → K) (hm : Monotone U) (n : ℕ) (u tol : K) (h0 : 0 < tol) (h1 : 2 * tol < 1) :
+    (tol < U n - U (n - 1) → u ≤ U n → BinTolOk U n u tol) ∧
+    (u = U n ∨ tol < U n - u → BinTolOk U n u tol) :=
+  ⟨fun h hu => BinTolOk.of_last_span U n u tol h0 h1 h hu, fun h => BinTolOk.of_far U hm n u tol h0 h1 h⟩
+
+/-- **What the selected binary search finds on the closed domain** (the analogue of C01 `domain_span_found`): it
+    returns an index `k`, the one the linear search returns; `p ≤ k < n`, the span is non-empty and contains `u`
+    (closed on the right); for `u < U_n` it is the half-open knot interval of `u`, for `u = U_n` the last span. -/
+theorem binsearch_span_found (p : ℕ) (U : ℕ → K) (n : ℕ) (hU : KnotsOk p U n) (u tol : K)
+    (hlo : U p ≤ u) (hhi : u ≤ U n) (ht : BinTolOk U n u tol) :
+    ∃ k, findSpanBin p U n u tol = some k ∧ k = findSpanLinear p U n u ∧ p ≤ k ∧ k < n ∧
+      U k ≤ u ∧ u ≤ U (k + 1) ∧ U k < U (k + 1) ∧ (u < U n → u < U (k + 1)) ∧ (u = U n → k = n - 1) :=
+  findSpanBin_dom hU u tol hlo hhi ht
+
+/-- … hence whatever an evaluator computes from the span (`F`: any of `curvePointAt`, `curveDersA32`, `surfaceDersA36`
+    in one direction, …) is the value computed from the linear search's span. -/
+theorem binsearch_selected_any_span_function {α : Type} (F : ℕ → α) (p : ℕ) (U : ℕ → K) (n : ℕ) (hU : KnotsOk p U n)
+    (u tol : K) (hlo : U p ≤ u) (hhi : u ≤ U n) (ht : BinTolOk U n u tol) :
+    (findSpanBin p U n u tol).map F = some (F (findSpanLinear p U n u)) :=
+  findSpanBin_map F hU u tol hlo hhi ht
+
+/-- **Curves, binary search selected, every parameter of the closed domain** `[U_p, U_n]`: the search returns a span
+    `k`, and the point `evaluate_single` computes on it (`curvePointAt … k`) is the point computed with the default
+    search, every coordinate of it is the sum over ALL control points of the Cox–de Boor recursion of span `k`
+    (`cdbSpan`, the left-limit convention at `u = U_n`, cf. C01) times control point, and for `u < U_n` the sum with the
+    Cox–de Boor functions `cdb` themselves. -/
+theorem curve_eval_binsearch_selected (p : ℕ) (U : ℕ → K) (P : List (List K)) (u tol : K) (d : ℕ)
+    (hU : KnotsOk p U P.length) (hP : NetOk d P) (hlo : U p ≤ u) (hhi : u ≤ U P.length)
+    (ht : BinTolOk U P.length u tol) :
+    ∃ k, findSpanBin p U P.length u tol = some k ∧
+      curvePointAt p U P k u = curvePoint p U P u ∧
+      (∀ j, (curvePointAt p U P k u).getD j 0
+        = ∑ i ∈ Finset.range P.length, cdbSpan U k p i u * (ptsGet P i).getD j 0) ∧
+      (u < U P.length → ∀ j, (curvePointAt p U P k u).getD j 0
+        = ∑ i ∈ Finset.range P.length, cdb U p i u * (ptsGet P i).getD j 0) :=
+  curvePoint_binsearch p U P u tol d hU hP hlo hhi ht
+
+/-- **Rational curves, binary search selected, closed domain, positive weights**: the weight of the homogeneous point
+    computed on the span found is positive and the projected point is (Σ N_i w_i P_i) / (Σ N_i w_i) coordinatewise. -/
+theorem rational_curve_eval_binsearch_selected (p : ℕ) (U : ℕ → K) (Pw : List (List K)) (u tol : K) (d : ℕ)
+    (hU : KnotsOk p U Pw.length) (hP : NetOk (d+1) Pw) (hlo : U p ≤ u) (hhi : u ≤ U Pw.length)
+    (hwt : ∀ i, i < Pw.length → 0 < (ptsGet Pw i).getD d 0) (ht : BinTolOk U Pw.length u tol) :
+    ∃ k, findSpanBin p U Pw.length u tol = some k ∧
+      0 < (curvePointAt p U Pw k u).getD d 0 ∧
+      ∀ j, j < d → (project (curvePointAt p U Pw k u)).getD j 0
+        = (∑ i ∈ Finset.range Pw.length, cdbSpan U k p i u * (ptsGet Pw i).getD j 0)
+          / (∑ i ∈ Finset.range Pw.length, cdbSpan U k p i u * (ptsGet Pw i).getD d 0) :=
+  curvePoint_rational_binsearch p U Pw u tol d hU hP hlo hhi hwt ht
+
+/-- **Surfaces, binary search selected in both directions, closed domain**: tensor-product sums, flat layout
+    `v + size_v · u`. -/
+theorem surface_eval_binsearch_selected (pu pv : ℕ) (Uu Uv : ℕ → K) (su sv : ℕ) (P : List (List K)) (u v tol : K) (d : ℕ)
+    (hUu : KnotsOk pu Uu su) (hUv : KnotsOk pv Uv sv) (hlen : P.length = su * sv) (hP : NetOk d P)
+    (hu1 : Uu pu ≤ u) (hu2 : u ≤ Uu su) (hv1 : Uv pv ≤ v) (hv2 : v ≤ Uv sv)
+    (htu : BinTolOk Uu su u tol) (htv : BinTolOk Uv sv v tol) :
+    ∃ ku kv, findSpanBin pu Uu su u tol = some ku ∧ findSpanBin pv Uv sv v tol = some kv ∧
+      surfacePointAt pu pv Uu Uv sv P ku kv u v = surfacePoint pu pv Uu Uv su sv P u v ∧
+      (∀ j, (surfacePointAt pu pv Uu Uv sv P ku kv u v).getD j 0
+        = ∑ a ∈ Finset.range su, ∑ b ∈ Finset.range sv,
+            cdbSpan Uu ku pu a u * cdbSpan Uv kv pv b v * (ptsGet P (b + sv * a)).getD j 0) ∧
+      (u < Uu su → v < Uv sv → ∀ j, (surfacePointAt pu pv Uu Uv sv P ku kv u v).getD j 0
+        = ∑ a ∈ Finset.range su, ∑ b ∈ Finset.range sv,
+            cdb Uu pu a u * cdb Uv pv b v * (ptsGet P (b + sv * a)).getD j 0) :=
+  surfacePoint_binsearch pu pv Uu Uv su sv P u v tol d hUu hUv hlen hP hu1 hu2 hv1 hv2 htu htv
+
+/-- **Volumes, binary search selected in the three directions, closed domain**: triple sums, layout
+    `v + size_v · (u + size_u · w)`. -/
+theorem volume_eval_binsearch_selected (pu pv pw : ℕ) (Uu Uv Uw : ℕ → K) (su sv sw : ℕ) (P : List (List K))
+    (u v w tol : K) (d : ℕ)
+    (hUu : KnotsOk pu Uu su) (hUv : KnotsOk pv Uv sv) (hUw : KnotsOk pw Uw sw)
+    (hlen : P.length = su * sv * sw) (hP : NetOk d P)
+    (hu1 : Uu pu ≤ u) (hu2 : u ≤ Uu su) (hv1 : Uv pv ≤ v) (hv2 : v ≤ Uv sv) (hw1 : Uw pw ≤ w) (hw2 : w ≤ Uw sw)
+    (htu : BinTolOk Uu su u tol) (htv : BinTolOk Uv sv v tol) (htw : BinTolOk Uw sw w tol) :
+    ∃ ku kv kw, findSpanBin pu Uu su u tol = some ku ∧ findSpanBin pv Uv sv v tol = some kv ∧
+      findSpanBin pw Uw sw w tol = some kw ∧
+      volumePointAt pu pv pw Uu Uv Uw su sv P ku kv kw u v w = volumePoint pu pv pw Uu Uv Uw su sv sw P u v w ∧
+      (∀ j, (volumePointAt pu pv pw Uu Uv Uw su sv P ku kv kw u v w).getD j 0
+        = ∑ a ∈ Finset.range su, ∑ b ∈ Finset.range sv, ∑ c ∈ Finset.range sw,
+            cdbSpan Uu ku pu a u * cdbSpan Uv kv pv b v * cdbSpan Uw kw pw c w *
+              (ptsGet P (b + sv * (a + su * c))).getD j 0) ∧
+      (u < Uu su → v < Uv sv → w < Uw sw → ∀ j, (volumePointAt pu pv pw Uu Uv Uw su sv P ku kv kw u v w).getD j 0
+        = ∑ a ∈ Finset.range su, ∑ b ∈ Finset.range sv, ∑ c ∈ Finset.range sw,
+            cdb Uu pu a u * cdb Uv pv b v * cdb Uw pw c w * (ptsGet P (b + sv * (a + su * c))).getD j 0) :=
+  volumePoint_binsearch pu pv pw Uu Uv Uw su sv sw P u v w tol d hUu hUv hUw hlen hP hu1 hu2 hv1 hv2 hw1 hw2
+    htu htv htw
+
+/-- **Curve derivatives, binary search selected, closed domain**: on the span `k` the search returns, the alternative
+    evaluator (`curveDersAt`, A3.3/A3.4) is the model `curveDers` of the default-search call and its entry 0 is the point;
+    entry `r ≤ order` of BOTH evaluators as coded (`curveDersAt`; `curveDersA32` = `CurveEvaluator`, the default) is the
+    `r`-th derivative (Mathlib's `Polynomial.derivative`, iterated) of the span polynomial of span `k` at `u` (at a knot:
+    the derivative from the right; at the right end of the domain: from the left). -/
+theorem curve_derivatives_binsearch_selected (p : ℕ) (U : ℕ → K) (P : List (List K)) (u tol : K) (d : ℕ)
+    (hU : KnotsOk p U P.length) (hP : NetOk d P) (hlo : U p ≤ u) (hhi : u ≤ U P.length)
+    (ht : BinTolOk U P.length u tol) :
+    ∃ k, findSpanBin p U P.length u tol = some k ∧
+      (∀ order, curveDersAt p U P k u order = curveDers p U P u order) ∧
+      (∀ order, (curveDersAt p U P k u order).getD 0 [] = curvePointAt p U P k u) ∧
+      (∀ order r j, r ≤ order → ((curveDersAt p U P k u order).getD r []).getD j 0
+          = Polynomial.eval u (Polynomial.derivative^[r] (spanPoly p U P k j))) ∧
+      (∀ order r j, r ≤ order → ((curveDersA32 p U P k u order).getD r []).getD j 0
+          = Polynomial.eval u (Polynomial.derivative^[r] (spanPoly p U P k j))) :=
+  curveDers_binsearch p U P u tol d hU hP hlo hhi ht
+
+/-- **Without the tolerance hypothesis the evaluated POINT differs** (recorded finding F-17b at evaluation level): a
+    quadratic curve with an interior knot `0.999995` within the tolerance `10⁻⁵` of the domain end, at `u = 0.999992`
+    (span 3): the binary search returns span 4 and the point computed on it is `(4.7199…, 2.5599…)`, the curve point is
+    `(3.9999…, 3.9999…)`.
+    (Closed witness check: a statement about this one concrete input, decided by evaluation.) -/
+theorem curve_eval_binsearch_refuted_F17b :
+    (findSpanBin 2 (fnOf ([0,0,0,1/2,999995/1000000,1,1,1] : List ℚ)) 5 (999992/1000000) (1/100000)).map
+        (fun k => curvePointAt 2 (fnOf ([0,0,0,1/2,999995/1000000,1,1,1] : List ℚ)) [[0,0],[1,2],[3,1],[4,4],[6,0]] k
+          (999992/1000000))
+      = some [368748/78125, 199994/78125] ∧
+    curvePoint 2 (fnOf ([0,0,0,1/2,999995/1000000,1,1,1] : List ℚ)) [[0,0],[1,2],[3,1],[4,4],[6,0]] (999992/1000000)
+      = [694430208425347/173608506953125, 694422569672916/173608506953125] := by
+  decide +kernel
+
+/-- non-vacuity: the example curve (knots `0,0,0,1,2,2,4,5,5,5`, degree 2, 7 control points), tolerance `1/100`; the last
+    span `[4, 5]` is longer than the tolerance, so every parameter of the domain is admissible -/
+example : KnotsOk 2 (fnOf cfgKv) cfgNet.length := ⟨cfgKv_mono, by decide, by decide +kernel⟩
+example (u : ℚ) (hu : u ≤ fnOf cfgKv 7) : BinTolOk (fnOf cfgKv) 7 u (1/100) :=
+  (binsearch_tolerance_admissible (fnOf cfgKv) cfgKv_mono 7 u (1/100) (by norm_num) (by norm_num)).1
+    (by decide +kernel) hu
+/-- … at `u = 4999/1000`, where the tolerance shortcut fires (`|5 − u| ≤ 1/100`), and at the domain end `u = 5` -/
+example : ∃ k, findSpanBin 2 (fnOf cfgKv) cfgNet.length (4999/1000) (1/100) = some k ∧
+    curvePointAt 2 (fnOf cfgKv) cfgNet k (4999/1000) = curvePoint 2 (fnOf cfgKv) cfgNet (4999/1000) := by
+  obtain ⟨k, h1, h2, _⟩ := curve_eval_binsearch_selected 2 (fnOf cfgKv) cfgNet (4999/1000) (1/100) 3
+    ⟨cfgKv_mono, by decide, by decide +kernel⟩ cfgNet_ok (by decide +kernel) (by decide +kernel)
+    (BinTolOk.of_last_span _ _ _ _ (by norm_num) (by norm_num) (by decide +kernel) (by decide +kernel))
+  exact ⟨k, h1, h2⟩
+example : findSpanBin 2 (fnOf cfgKv) 7 (4999/1000) (1/100) = some 6 ∧
+    absK (fnOf cfgKv 7 - 4999/1000) ≤ 1/100 ∧
+    curvePointAt 2 (fnOf cfgKv) cfgNet 6 5 = [7, 7, 1] ∧ curvePoint 2 (fnOf cfgKv) cfgNet 5 = [7, 7, 1] := by
+  decide +kernel
 
 end C17
